@@ -145,7 +145,7 @@ def snapshot(gr):
             list(gr.undirected.edges()))
 
 
-def corpus_graphs():
+def corpus_graphs(acyclic_only=True):
     """Textbook graphs shipped in y0.examples whose nodes can be renamed to V0..V9."""
     out = []
     try:
@@ -167,6 +167,8 @@ def corpus_graphs():
     seen, uniq = set(), []
     for g in out:
         k = (tuple(sorted(g["nodes"])), tuple(sorted(map(tuple, g["dir"]))), tuple(sorted(tuple(sorted(e)) for e in g["bid"])))
+        if acyclic_only and not _acyclic(len(g["nodes"]), g["dir"]):
+            continue
         if k not in seen:
             seen.add(k)
             uniq.append(g)
